@@ -31,6 +31,8 @@ class Instance:
             return "bootstrap"
         if segs[0] == "verif_corpus":
             return "corpus:" + "::".join(segs[2:-1] if segs[1] == "gen" else segs[1:-1])
+        if segs[0] == "verif_corpus_rand":
+            return "rand:" + "::".join(segs[2:-1] if segs[1] == "gen" else segs[1:-1])
         return segs[0] + ":" + "::".join(segs[1:-1])
 
     def owns_impl(self, path):
@@ -66,10 +68,15 @@ class Ctx:
         self.testcrate = self.F.crate("peginator_test", test=True)
         self.macrotest = self.F.crate("simple", test=True)
         self.corpus = self.F.crate("verif_corpus")
+        self.corpus_rand = self.F.crate("verif_corpus_rand")
         self.runtime_nodefault = self.F.crate("peginator", nodefault=True)
         self._instances = None
         ce = os.path.join(self.dir, "CORPUS_ERROR")
         self.corpus_error = open(ce).read() if os.path.exists(ce) else None
+        re_ = os.path.join(self.dir, "RAND_ERROR")
+        self.rand_error = open(re_).read() if os.path.exists(re_) else None
+        rr = os.path.join(self.dir, "rand_gen", "REJECTED.txt")
+        self.rand_rejected = [l.split("|", 2) for l in open(rr).read().splitlines() if l.strip()] if os.path.exists(rr) else []
         rj = os.path.join(self.dir, "corpus_gen", "REJECTED.txt")
         self.corpus_rejected = [l.split("|", 2) for l in open(rj).read().splitlines() if l.strip()] if os.path.exists(rj) else []
 
@@ -95,7 +102,7 @@ class Ctx:
     def instances(self):
         if self._instances is None:
             out = []
-            for c in [self.testcrate, self.codegen, self.macrotest, self.corpus]:
+            for c in [self.testcrate, self.codegen, self.macrotest, self.corpus, self.corpus_rand]:
                 if c is None:
                     continue
                 prefixes = set()
@@ -137,6 +144,10 @@ class Ctx:
                         g = ebnf.parse_file(f)
                         g.path = f
                         g.settings = {"derives": [x for x in p[2].split(",") if x], "user_context": p[3]}
+            elif inst.name.startswith("rand:"):
+                f = os.path.join(self.dir, "rand_grammars", inst.name[5:] + ".ebnf")
+                g = ebnf.parse_file(f)
+                g.path = f
             elif inst.crate.name == "simple":
                 import re as _re
                 src = self.read_repo("macro/tests/simple.rs")
